@@ -206,3 +206,32 @@ declare void @ext()
 @b = global { i32, i8 } insertvalue ({ i32, i8 } { i32 1, i8 2 }, i32 7, 0)
 @g = global i32 0
 @c = global i64 extractvalue ({ i64, i8 } { i64 ptrtoint (i32* @g to i64), i8 2 }, 0)
+;;; ATOM const/blockaddress-function-and-block-names-that-concatenate-alike
+@table = global [4 x i8*] [i8* blockaddress(@f, %cold.1.bb), i8* blockaddress(@f.cold.1, %bb), i8* blockaddress(@"f.cold", %"1.bb"), i8* blockaddress(@f, %bb)]
+
+define void @f(i1 %c) {
+entry:
+  br i1 %c, label %cold.1.bb, label %bb
+cold.1.bb:
+  ret void
+bb:
+  ret void
+}
+
+define void @f.cold.1(i1 %c) {
+entry:
+  br i1 %c, label %bb, label %other
+bb:
+  ret void
+other:
+  ret void
+}
+
+define void @f.cold(i1 %c) {
+entry:
+  br i1 %c, label %"1.bb", label %bb
+"1.bb":
+  ret void
+bb:
+  ret void
+}
